@@ -318,7 +318,8 @@ pub enum SNode {
     Float(f64),
     Str(String),
     Arr(Vec<ShareDoc>),
-    Obj(Vec<(String, ShareDoc)>),
+    /// member names are interned: equal names in different objects are one `String`
+    Obj(Vec<(Rc<String>, ShareDoc)>),
 }
 
 #[derive(Clone)]
@@ -344,7 +345,7 @@ fn flyweight(v: &ShareDoc) -> Option<&'static ShareDoc> {
 
 impl ShareDoc {
     pub fn from_value(v: &Value) -> ShareDoc {
-        fn build(v: &Value, pool: &mut std::collections::HashMap<String, Rc<SNode>>) -> ShareDoc {
+        fn build(v: &Value, pool: &mut std::collections::HashMap<String, Rc<SNode>>, names: &mut std::collections::HashMap<String, Rc<String>>) -> ShareDoc {
             let key = v.to_string();
             if let Some(n) = pool.get(&key) {
                 return ShareDoc(n.clone());
@@ -357,8 +358,8 @@ impl ShareDoc {
                     None => SNode::Float(n.as_f64().unwrap_or(0.0)),
                 },
                 Value::String(s) => SNode::Str(s.clone()),
-                Value::Array(a) => SNode::Arr(a.iter().map(|x| build(x, pool)).collect()),
-                Value::Object(o) => SNode::Obj(o.iter().map(|(k, x)| (k.clone(), build(x, pool))).collect()),
+                Value::Array(a) => SNode::Arr(a.iter().map(|x| build(x, pool, names)).collect()),
+                Value::Object(o) => SNode::Obj(o.iter().map(|(k, x)| (names.entry(k.clone()).or_insert_with(|| Rc::new(k.clone())).clone(), build(x, pool, names))).collect()),
             };
             let rc = Rc::new(node);
             // integers and floats that print alike must not be merged (1 and 1.0 print differently in
@@ -366,7 +367,7 @@ impl ShareDoc {
             pool.insert(key, rc.clone());
             ShareDoc(rc)
         }
-        build(v, &mut std::collections::HashMap::new())
+        build(v, &mut std::collections::HashMap::new(), &mut std::collections::HashMap::new())
     }
     pub fn to_value(&self) -> Value {
         match &*self.0 {
@@ -379,7 +380,7 @@ impl ShareDoc {
             SNode::Obj(o) => {
                 let mut m = Map::new();
                 for (k, v) in o {
-                    m.insert(k.clone(), v.to_value());
+                    m.insert((**k).clone(), v.to_value());
                 }
                 Value::Object(m)
             }
@@ -461,7 +462,7 @@ impl Queryable for ShareDoc {
         let b = key.as_bytes();
         let key = if b.len() >= 2 && ((b[0] == b'\'' && b[b.len() - 1] == b'\'') || (b[0] == b'"' && b[b.len() - 1] == b'"')) { &key[1..key.len() - 1] } else { key };
         match &*self.0 {
-            SNode::Obj(o) => o.iter().find(|(k, _)| k == key).map(|(_, v)| flyweight(v).unwrap_or(v)),
+            SNode::Obj(o) => o.iter().find(|(k, _)| k.as_str() == key).map(|(_, v)| flyweight(v).unwrap_or(v)),
             _ => None,
         }
     }
@@ -473,7 +474,7 @@ impl Queryable for ShareDoc {
     }
     fn as_object(&self) -> Option<Vec<(&String, &Self)>> {
         match &*self.0 {
-            SNode::Obj(o) => Some(o.iter().map(|(k, v)| (k, flyweight(v).unwrap_or(v))).collect()),
+            SNode::Obj(o) => Some(o.iter().map(|(k, v)| (&**k, flyweight(v).unwrap_or(v))).collect()),
             _ => None,
         }
     }
